@@ -9,8 +9,10 @@ IMPL_MODULE = "sets_impl"
 IMPL_ENV = {"PYTHONHASHSEED": str(int(os.environ.get("VERIF_SEED", "0") or 0) % 4294967295)}
 RULE = ("stack programs over SpecifierSet objects: clause multisets (operators x admissible/inadmissible version forms drawn from a small pool of "
         "related versions) in shuffled order with duplicates, stray commas and Unicode spacing, overrides None/True/False on either operand and on "
-        "the call, a & b, a & 'text', sets built from Specifier objects with their own overrides, candidates that are neighbours of the clause "
-        "versions; observations: str, len, prereleases, ==/hash, contains(prereleases, installed); mutated and bounded-exhaustive set texts; "
+        "the call (also as non-bool 1 / 0 / 'x' / ''), a & b, a & 'text' (also with an invalid text), sets built from Specifier objects with their own "
+        "overrides and == spellings, candidates that are neighbours of the clause versions; observations: str, len, prereleases, ==/hash, "
+        "set == 'text' / Specifier, `in`, contains(prereleases, installed) also after & and on object-built sets; '===' texts with special "
+        "str.lower(); separators U+0085 / U+2028 / U+001C; mutated and bounded-exhaustive set texts; "
         "non-trivial = the set was constructed and something was observed; distinct by program text")
 ASSUMPTIONS = ["iteration order of the frozenset is not observed except through str() (sorted) - the model treats it as an arbitrary permutation",
                "hash(): only 'equal sets have equal hashes' is observed"]
@@ -20,14 +22,20 @@ ALPHA = [",", " ", "=", ">", "1", "0", ".", "*", "a"]
 
 
 def probes(rng, pool, n, inst=False):
+    """contains() probes; now and then `item in top`, and top == "text" / top == Specifier(text) against a clause-like text"""
     out = []
     for _ in range(n):
-        out += ["c", rng.choice(["T", "T", "N", "F"]), rng.choice(["N", "T", "F"]) if inst else "N", rng.choice("sv"), G.candidate(rng, pool)]
+        k = rng.random()
+        if k < 0.1: out += ["in", rng.choice("sv"), G.candidate(rng, pool)]
+        elif k < 0.16: out += ["eqs", rng.choice("ssXXn"), G.clause(rng, pool)]
+        else: out += ["c", rng.choice(["T", "T", "N", "N", "F"] + G.TRI_ARG), rng.choice(["N", "T", "F", "1", "0", "S", "E"]) if inst else "N", rng.choice("sv"), G.candidate(rng, pool)]
     return out
 
 
 def rand_set(rng, pool, maxn=4, dup=True):
-    cl = [G.clause(rng, pool) for _ in range(rng.choice(range(maxn + 1)))]
+    n = rng.choice(range(maxn + 1))
+    if dup and rng.random() < 0.03: n = rng.choice([8, 12, 20])        # now and then a long clause list
+    cl = [G.clause(rng, pool) for _ in range(n)]
     if dup and cl and rng.random() < 0.4: cl += [rng.choice(cl) for _ in range(rng.choice([1, 2]))]
     rng.shuffle(cl)
     return cl
@@ -46,23 +54,28 @@ def streams(rng, tier):
         cl = rand_set(rng, pool)
         text = G.layout(rng, cl)
         if rng.random() < 0.08: text = gen.mutate(rng, text)
-        prog = ["S", rng.choice(G.TRI), text, "str", "len", "pre"] + probes(rng, pool, rng.choice([2, 4]), inst=rng.random() < 0.3)
+        prog = ["S", rng.choice(G.TRI_OV), text, "str", "len", "pre"] + probes(rng, pool, rng.choice([2, 4]), inst=rng.random() < 0.3)
+        if rng.random() < 0.15: prog += ["eqs", "s", G.layout(rng, [G.respell(rng, x) for x in cl][::-1]) if rng.random() < 0.7 else G.layout(rng, cl[1:])]
+        if rng.random() < 0.1: prog += ["P", rng.choice(G.TRI_OV), "pre"] + probes(rng, pool, 2, inst=True)
         out.append(Case("set", "s.run", prog))
     for _ in range(1500 if q else 40000):
         pool = G.pool_of(rng)
         a, b = rand_set(rng, pool, 3), rand_set(rng, pool, 3)
         if rng.random() < 0.3 and a: b = b + [rng.choice(a)]
         ta, tb = G.layout(rng, a), G.layout(rng, b)
-        oa, ob = rng.choice(G.TRI), rng.choice(G.TRI)
-        if rng.random() < 0.75:
+        # the right operand is mutated now and then (and also made of inadmissible clauses by G.clause): a & "invalid text" must raise InvalidSpecifier
+        if rng.random() < 0.12: tb = gen.mutate(rng, tb)
+        oa, ob = rng.choice(G.TRI_OV), rng.choice(G.TRI_OV)
+        if rng.random() < 0.6:
             prog = ["S", oa, ta, "S", ob, tb, "&"]
         else:
             prog = ["S", oa, ta, "&s", tb]
-        prog += ["str", "len", "pre"] + probes(rng, pool, 3)
+        prog += ["str", "len", "pre"] + probes(rng, pool, 3, inst=rng.random() < 0.4)
         if rng.random() < 0.5: prog += ["S", "N", ta + "," + tb, "eq", "str"]
+        if rng.random() < 0.2: prog += ["eqs", "s", tb + "," + ta]
         if rng.random() < 0.3:
             c = rand_set(rng, pool, 2)
-            prog += ["S", rng.choice(G.TRI), G.layout(rng, c), "&", "str", "pre"] + probes(rng, pool, 2)
+            prog += ["S", rng.choice(G.TRI_OV), G.layout(rng, c), "&", "str", "pre"] + probes(rng, pool, 2, inst=rng.random() < 0.4)
         out.append(Case("and", "s.run", prog))
     # canonically equal, differently spelled duplicates (D33 territory): compared against the model only, which keeps the first occurrence
     for _ in range(800 if q else 20000):
@@ -79,14 +92,15 @@ def streams(rng, tier):
     for _ in range(600 if q else 15000):
         pool = G.pool_of(rng)
         cl = rand_set(rng, pool, 3)
-        prog = ["L", rng.choice(G.TRI), str(len(cl))]
-        for x in cl: prog += [rng.choice(G.TRI), x]
-        prog += ["str", "len", "pre"] + probes(rng, pool, 2)
+        if rng.random() < 0.3 and cl: cl += [G.respell(rng, rng.choice(cl))]        # == members with different spellings and overrides: the first supplied wins
+        prog = ["L", rng.choice(G.TRI_OV), str(len(cl))]
+        for x in cl: prog += [rng.choice(G.TRI_OV), x]
+        prog += ["str", "len", "pre"] + probes(rng, pool, 2, inst=rng.random() < 0.5)
         if rng.random() < 0.5:
             cl2 = rand_set(rng, pool, 2) + cl[:1]
             prog += ["L", rng.choice(["N", "N", "T", "F"]), str(len(cl2))]
-            for x in cl2: prog += [rng.choice(G.TRI), x]
-            prog += ["&", "str", "pre"] + probes(rng, pool, 2)
+            for x in cl2: prog += [rng.choice(G.TRI_OV), x]
+            prog += ["&", "str", "pre"] + probes(rng, pool, 2, inst=rng.random() < 0.5)
         out.append(Case("from-objects", "s.run", prog))
     # bounded-exhaustive set texts over a class-representative alphabet
     L = 4 if q else 6
@@ -95,6 +109,20 @@ def streams(rng, tier):
     for s in ["", ",", " , ", ">=1,<2", "==1.0,==1.0.0", "==1.0.0,==1.0", "===a,b", "===a,===b", ">=1.0,  ,<2,", "~=1.0,~=1.00", "~=1.0,~=1.0.0",
               "===1.0,===1.0.0", ">=1 ,<2", ">=1,　<2", ">=1;<2", "!=1.*,==1.0.*", "==1.0.*,==1.0.0.*", ">=1.0a1,<2", "!=1.0a1"]:
         out.append(Case("fixed", "s.run", ["S", "N", s, "str", "len", "pre", "c", "T", "N", "s", "1.0", "c", "N", "N", "s", "1.5a1", "in", "v", "1.0.0"]))
+    # '===' texts whose str.lower() is special (KELVIN SIGN, dotted capital I, long s), upper-case local labels; candidates that differ by case only
+    for _ in range(150 if q else 3000):
+        cl = ["===" + rng.choice(["", " "]) + rng.choice(G.ARB) for _ in range(rng.choice([1, 1, 2]))]
+        if rng.random() < 0.3: cl.append(rng.choice([">=1.0", "==1.0+K", "!=1.0+k", "<2"]))
+        prog = ["S", rng.choice(G.TRI), G.layout(rng, cl), "str", "len", "pre"]
+        for _ in range(3): prog += ["c", rng.choice("TN"), "N", rng.choice("sv"), rng.choice(G.ARB_CANDS)]
+        prog += ["eqs", rng.choice("sX"), rng.choice(cl)]
+        out.append(Case("arbitrary-fold", "s.run", prog))
+    for t in G.ARB:
+        for cnd in G.ARB_CANDS:
+            out.append(Case("fixed", "s.run", ["S", "N", "===" + t, "c", "T", "N", "s", cnd, "c", "T", "N", "v", cnd, "str"]))
+    for s, t in [(">=1,<2", "<2, >=1.0"), (">=1,<2", "<2"), ("", ""), ("", " , "), (">=1", "foo"), (">=1", ">=1,,bar"), ("===a,b", "===a,b"), ("==1.0", "==1.0.0"),
+                 ("===1.0", "===1.0.0"), ("~=1.0", "~=1.0.0"), (">=1", ">= 1")]:
+        out.append(Case("fixed", "s.run", ["S", "N", s, "eqs", "s", t, "eqs", "X", t]))
     # laws evaluated on the implementation
     for _ in range(700 if q else 20000):
         pool = G.pool_of(rng)
